@@ -43,6 +43,9 @@ NUM = 4
 
 
 # --------------------------------------------------------------------------- executing a history
+_GV = [uc.gen_values({})]      # generator values of the case being executed (set by run_history)
+
+
 def _helper(name, a, qs):
     import numpy as np
     import chempy.units as cu
@@ -56,10 +59,13 @@ def _helper(name, a, qs):
     other = arr * qj * cu.default_units.second if v == "incompat" else arr * qj    # "incompat": one more dimension
     if name == "allclose":
         kw = {"rtol": 1e-2} if v == "rtol2" else {"rtol": 1e-8}
-        if v == "atol_big":
-            kw["atol"] = 10 * abs(qj)
-        if v == "atol_small":
-            kw["atol"] = abs(qj) / 10
+        tol = a.get("tol") or {}
+        if "bw" in tol:     # second argument and tolerances as the case writes them: quantities in the unit of qs[j]
+            other = np.array([float(uc.num(m, _GV[0])) for m in tol["bw"]["mags"]]) * uc.unit_expr(tol["bw"]["ux"])
+            if "mag" in tol["atolw"]:
+                kw["atol"] = float(uc.num(tol["atolw"]["mag"], _GV[0])) * uc.unit_expr(tol["atolw"]["ux"])
+            if "mag" in tol["rtolw"]:
+                kw["rtol"] = float(uc.num(tol["rtolw"]["mag"], _GV[0])) * uc.unit_expr(tol["rtolw"]["ux"])
         return {"bool": bool(ns.allclose(arr * qi, other, **kw))}
     if name == "compare_equality":
         return {"bool": bool(np.all(cu.compare_equality(arr * qi, other)))}
@@ -218,6 +224,28 @@ def _step(a, q, qs, q0ux):
         if "raised" in o:
             return {"raised": True, "exc": o["raised"]}, None
         return {"raised": False, "x": float(o["v"])}, None
+    if op == "mixnum":
+        n = float(Fraction(*a["n"]))
+        n = int(n) if n == int(n) else n
+        lst = [n, q] if a["numfirst"] else [q, n]
+        fn = a["fn"]
+        call = {"uniform": lambda: cu.uniform(lst), "uniform_tuple": lambda: cu.uniform(tuple(lst)),
+                "unit_of": lambda: cu.unit_of(lst), "dimensionality": lambda: cu.get_physical_dimensionality(lst),
+                "to_unitless": lambda: cu.to_unitless(lst)}[fn]
+        o = uc.observe(call)
+        if "raised" in o:
+            return {"raised": True, "exc": o["raised"]}, None
+        r = o["v"]
+        if fn in ("uniform", "uniform_tuple"):
+            pr = uc.project_unitful(r)
+            return {"raised": False, "si": pr["si"] if isinstance(pr["si"], list) else [pr["si"]], "dim": pr["dim"],
+                    "mags": uc.floats(getattr(r, "magnitude", r))}, None
+        if fn == "to_unitless":
+            return {"raised": False, "si": uc.floats(r), "dim": {k: 0 for k in uc.DIMS}, "mags": []}, None
+        if fn == "unit_of":
+            pr = uc.project_unitful(r)
+            return {"raised": False, "usi": pr["si"], "dim": pr["dim"], "si": [], "mags": []}, None
+        return {"raised": False, "dim": uc.project_dimdict(r), "si": [], "mags": []}, None
     if op == "defunit":
         return uc.project_unitful(cu.default_unit_in_registry(q, uc.registry(a["reg"]))), None
     if op == "unitless":
@@ -273,6 +301,7 @@ def run_history(cin, gens):
     """execute the history of a case on chempy.units; one observation per operation.
     An exception where the spec expects a value is itself the observation."""
     gv = uc.gen_values(gens)
+    _GV[0] = gv
     q = float(uc.num(cin["mag"], gv))
     if cin["ux"]:
         q = q * uc.unit_expr(cin["ux"])
@@ -297,7 +326,7 @@ def _plain(name, e, A, B, C, outs):
     the unit of each output (all numbers and keyword values come from the case)"""
     import numpy as np
     if name == "allclose":
-        return {"bool": bool(np.allclose(A, B, rtol=10.0 ** -e["rtol10"], atol=C[0] if C else 0))}
+        return {"bool": bool(np.allclose(A, B, rtol=e["rtol_f"], atol=C[0] if C else 0))}
     if name == "compare_equality":
         return {"bool": bool(np.array_equal(A, B))}
     if name == "linspace":
@@ -364,6 +393,26 @@ def judge(a, obs, e, gv, tol10, htol10):
         if obs["raised"]:
             return "unexpected-raise"
         return None if uc.close(obs["x"], uc.num(e["x"], gv), tol10) else "magnitude"
+    if op == "mixnum":
+        if e["raise"]:
+            return None if obs["raised"] else "missing-raise"
+        if obs["raised"]:
+            return "unexpected-raise"
+        fn = a["fn"]
+        if fn in ("uniform", "uniform_tuple", "to_unitless"):
+            if len(obs["si"]) != len(e["pure"]):
+                return "length"
+            if not all(uc.close(x, uc.num(ex, gv), tol10) for x, ex in zip(obs["si"], e["pure"])):
+                return "element"
+            if fn != "to_unitless":
+                if len(obs["mags"]) != len(e["mags"]) or not all(uc.close(x, uc.num(ex, gv), tol10) for x, ex in zip(obs["mags"], e["mags"])):
+                    return "common-unit"
+            return None
+        if fn == "unit_of":
+            if obs["dim"] != e["unit"]["dim"]:
+                return "unit-dimension"
+            return None if uc.close(obs["usi"], uc.scale_num(e["unit"]["scale"], gv), tol10) else "unit-size"
+        return None if all(v == 0 for v in obs["dim"].values()) else "dimensionality"
     if op == "plain":
         if len(obs["xs"]) != len(e["xs"]):
             return "length"
@@ -441,6 +490,7 @@ def judge(a, obs, e, gv, tol10, htol10):
         A = [float(uc.num(v, gv)) for v in e["A"]]
         B = [float(uc.num(v, gv)) for v in e["B"]]
         C = [float(uc.num(v, gv)) for v in e["C"]]
+        e = dict(e, rtol_f=float(uc.num(e["rtol"], gv)))
         outs = [float(uc.num(v, gv)) for v in e["outs"]]
         want = _plain(name, e, A, B, C, outs)
         if "bool" in want:
@@ -472,7 +522,10 @@ def replay_case(case):
     for i, a in enumerate(ops):
         if i >= len(obs):
             break
-        clause = judge(a, obs[i], case["exp"]["obs"][i], gv, case["exp"]["tol10"], case["exp"]["htol10"])
+        try:
+            clause = judge(a, obs[i], case["exp"]["obs"][i], gv, case["exp"]["tol10"], case["exp"]["htol10"])
+        except Exception as ex:  # noqa - an observation of an unforeseen shape/type is a disagreement, not a crash
+            clause = "unjudgeable-observation:" + type(ex).__name__
         if clause is not None:
             bad.append((i, a, clause, obs[i]))
             break
@@ -482,7 +535,7 @@ def replay_case(case):
 def _fn_of(a):
     return {"convert": "to_unitless", "back": "to_unitless", "via": "to_unitless", "scale": "to_unitless",
             "container": "to_unitless", "incompatible": "to_unitless", "plain": "to_unitless", "dimensionality": "get_physical_dimensionality",
-            "unitof": "unit_of", "strip": "to_unitless", "defunit": "default_unit_in_registry", "unitless": "unitless_in_registry", "derived": "get_derived_unit",
+            "unitof": "unit_of", "strip": "to_unitless", "mixnum": "mixed-container", "defunit": "default_unit_in_registry", "unitless": "unitless_in_registry", "derived": "get_derived_unit",
             "roundtrip": "unit_registry_from_human_readable", "bexp": "Backend.exp"}.get(a["op"], a.get("name", a["op"]))
 
 
@@ -502,6 +555,8 @@ def _key(case, i, a, clause):
         key.update(be=a["be"], call=a["fn"], form=a["form"])
     if a["op"] == "helper":
         key.update(variant=a.get("v", "default"), ns=a.get("ns", "units"))
+    if a["op"] == "mixnum":
+        key.update(call=a["fn"], numfirst=bool(a["numfirst"]))
     if a["op"] in ("dimensionality", "unitless", "unitof") and "form" in a:
         key["form"] = a["form"]
     if a["op"] == "incompatible":
@@ -553,21 +608,25 @@ def trace_of(cin, obs):
         elif op == "incompatible":
             e.update(t=a["t"], raised=bool(o["raised"]), rs_raised=bool(o["rs_raised"]))
         elif op == "dimensionality":
-            e.update(form=a.get("form", "scalar"), dim={k: o["dim"].get(k, 0) for k in uc.DIMS},
+            e.update(form=a.get("form", "scalar"), dim={k: uc.clean_int(o["dim"].get(k, 0)) for k in uc.DIMS},
                      extra=sorted(set(o["dim"]) - set(uc.DIMS)), unitless=bool(o["unitless"]))
         elif op == "unitof":
-            e.update(form=a["form"], simp=bool(a["simp"]), dim={k: o["dim"].get(k, 0) for k in uc.DIMS}, si=_enc(o["si"]), mag=_enc(o["mag"]))
+            e.update(form=a["form"], simp=bool(a["simp"]), dim={k: uc.clean_int(o["dim"].get(k, 0)) for k in uc.DIMS}, si=_enc(o["si"]), mag=_enc(o["mag"]))
         elif op == "strip":
             e.update(raised=bool(o["raised"]), x=_enc(o.get("x", 0.0)))
+        elif op == "mixnum":
+            e.update(fn=a["fn"], numfirst=bool(a["numfirst"]), raised=bool(o["raised"]), si=[_enc(v) for v in o.get("si", [])],
+                     mags=[_enc(v) for v in o.get("mags", [])], usi=_enc(o.get("usi", 0.0)),
+                     dim={k: uc.clean_int(o.get("dim", {}).get(k, 0)) for k in uc.DIMS})
         elif op in ("defunit", "derived"):
-            e.update(reg=uc.reg_event(a["reg"]), dim={k: o["dim"].get(k, 0) for k in uc.DIMS}, si=_enc(o["si"]))
+            e.update(reg=uc.reg_event(a["reg"]), dim={k: uc.clean_int(o["dim"].get(k, 0)) for k in uc.DIMS}, si=_enc(o["si"]))
             if op == "derived":
                 e["key"] = a["key"]
         elif op == "unitless":
             e.update(reg=uc.reg_event(a["reg"]), form=a.get("form", "scalar"), x=_enc(o.get("x", 0.0)), xs=[_enc(v) for v in o.get("xs", [])])
         elif op == "roundtrip":
             e.update(reg=uc.reg_event(a["reg"]),
-                     units=[{"d": k, "dim": {kk: o["units"][k]["dim"].get(kk, 0) for kk in uc.DIMS},
+                     units=[{"d": k, "dim": {kk: uc.clean_int(o["units"][k]["dim"].get(kk, 0)) for kk in uc.DIMS},
                              "si": _enc(o["units"][k]["si"]), "factor": _enc(o["factors"][k])} for k in uc.DIMS])
         elif op == "bexp":
             e.update(be=a["be"], fn=a["fn"], form=a["form"], raised=bool(o["raised"]), exc=o.get("exc", ""))
@@ -656,7 +715,7 @@ class Gen(object):
         cur = ux
         for _ in range(self.r.randint(1, self.max_ops)):
             k = self.r.choice(["convert", "convert", "via", "scale", "back", "container", "incompatible",
-                               "dimensionality", "defunit", "unitless", "derived", "roundtrip", "bexp", "unitof", "strip"])
+                               "dimensionality", "defunit", "unitless", "derived", "roundtrip", "bexp", "unitof", "strip", "mixnum"])
             if k == "convert":
                 cur = self.compatible(cur)
                 ops.append({"op": "convert", "t": cur})
@@ -681,6 +740,9 @@ class Gen(object):
                             "mults": [[1, 1], [2, 1], [-3, 2]]})
             elif k == "dimensionality":
                 ops.append({"op": k, "form": self.r.choice(["scalar", "list", "array", "dict"]), "mults": [[1, 1], [2, 1], [-3, 2]]})
+            elif k == "mixnum":
+                ops.append({"op": k, "fn": self.r.choice(["uniform", "uniform_tuple", "unit_of", "dimensionality", "to_unitless"]),
+                            "numfirst": self.r.random() < 0.4, "n": [3, 1]})
             elif k == "unitof":
                 ops.append({"op": k, "form": self.r.choice(["scalar", "list", "tuple", "dict", "array"]), "simp": self.r.random() < 0.5,
                             "mults": [[1, 1], [2, 1], [-3, 2]]})
@@ -704,7 +766,12 @@ class Gen(object):
 
 def _run_trace(h):
     obs = _run_history_q(float(Fraction(*h["magq"])), h)
-    return trace_of(h, obs), obs
+    try:
+        return trace_of(h, obs), obs
+    except Exception as ex:  # noqa - an observation that cannot be encoded is an observation that equals no expectation
+        ev = [{"ev": "factor", "n": f["n"], "p": f["p"]} for f in h["ux"]] + [{"ev": "seal", "mag": h["magq"]}]
+        ev += [{"ev": "error", "op": "encode", "exc": "Unencodable" + type(ex).__name__}, {"ev": "end"}]
+        return ev, obs
 
 
 def _run_history_q(mag, h):
@@ -725,7 +792,7 @@ def _run_history_q(mag, h):
 
 
 # --------------------------------------------------------------------------- run
-REQUIRED_OPS = {"unitof", "strip", "convert", "back", "via", "scale", "container", "incompatible", "dimensionality", "defunit",
+REQUIRED_OPS = {"mixnum", "unitof", "strip", "convert", "back", "via", "scale", "container", "incompatible", "dimensionality", "defunit",
                 "unitless", "derived", "roundtrip", "bexp", "helper", "plain"}
 
 
